@@ -282,13 +282,27 @@ func genesisChecks(h *harness, rng *rand.Rand, n int) {
 		_ = os.Remove(path)
 	}
 
-	// observation only (the statement does not say whether a zero-length, non-nil address is invalid)
-	g := randomGenesis(rng)
-	g.ProposerAddress = []byte{}
-	_ = os.Remove(path)
-	if err := g.Save(path); err == nil {
-		_, err, _ := loadGenesis(path)
-		r.Set("genesis_zero_length_proposer_address_accepted", err == nil)
+	// boundary value: a zero-length, non-nil proposer address. Whether such a genesis is valid is the node's own rule;
+	// but if the node holds it valid (Validate passes) and writes it, the file it wrote must load back equal
+	for i := 0; i < 5; i++ {
+		g := randomGenesis(rng)
+		g.ProposerAddress = []byte{}
+		_ = os.Remove(path)
+		if g.Validate() != nil {
+			r.Set("genesis_zero_length_proposer_address_accepted", false)
+			break
+		}
+		if err := g.Save(path); err != nil {
+			continue
+		}
+		r.Set("genesis_zero_length_proposer_address_accepted", true)
+		got, err, pan := loadGenesis(path)
+		r.Hit("genesis-round-trip")
+		if err != nil || pan != "" {
+			r.Violation("genesis-round-trip", fmt.Sprintf("a genesis with a zero-length proposer address passes the node's own validation and is written by Save, but the file does not load: %v %s", err, pan), witnessOf(g))
+		} else if msg := sameGenesis(g, got); msg != "" {
+			r.Violation("genesis-round-trip", "genesis written by Save loads back different: "+msg, map[string]any{"written": witnessOf(g), "loaded": witnessOf(got)})
+		}
 	}
 	_ = os.Remove(path)
 
